@@ -8,6 +8,7 @@
 -/
 import NcVerif.Proofs.Xml
 import NcVerif.Proofs.SessionA
+import NcVerif.Proofs.SessionC
 namespace NcVerif.C10
 open NcVerif NcVerif.Xml
 
@@ -44,6 +45,13 @@ theorem raw_is_own_payload (env : Session.Env) (ops : List Session.Op) :
     ∀ r ∈ (Session.run env Session.init ops).rpcs, ∀ raw, r.reply = some raw →
       SessionSpec.isReplyFor env r.id raw := by
   exact SessionA.own_reply env ops
+
+/-- …and it is one of the messages the framing layer handed over (so, by C01 / C14, the exact payload of a
+    correctly framed message of the server's stream). -/
+theorem reply_was_received (env : Session.Env) (ops : List Session.Op) :
+    ∀ r ∈ (Session.run env Session.init ops).rpcs, ∀ raw, r.reply = some raw →
+      raw ∈ (Session.run env Session.init ops).received := by
+  exact SessionC.reply_was_received env ops
 
 /-! Non-vacuity -/
 def q (n : String) (l : String) : QName := ⟨if n = "" then none else some n.toList, l.toList⟩
